@@ -107,6 +107,9 @@ def releaseAll (s : S) : S :=
 
 def boolRes (ok : Bool) : NetRes := if ok then .ok else .fail
 
+/-- the allocator when `h_init` calls `ptrheap_init`: the harness frees a heap it still has first -/
+def initMem (s : S) : Mem := match s.h with | some ha => HeapAlloc.free ha s.m | none => s.m
+
 def stepOp (s : S) : Op → S × Out
   | .failat k => ({ s with m := { s.m with f := sched 1 k s.m.n } }, .word .ok)
   | .failfrom k => ({ s with m := { s.m with f := sched 2 k s.m.n } }, .word .ok)
@@ -116,7 +119,7 @@ def stepOp (s : S) : Op → S × Out
     (s', .end_ s'.m.live s'.m.n)
   -- ---------------------------------------------------------------- pointer heap
   | .hInit =>
-    let m0 := match s.h with | some ha => HeapAlloc.free ha s.m | none => s.m
+    let m0 := initMem s
     match HeapAlloc.init m0 with
     | (some ha, m') => ({ s with m := m', h := some ha, hlive := [] }, .heap true (rf m0 m') none (hView (some ha) m0 m'))
     | (none, m') => ({ s with m := m', h := none, hlive := [] }, .heap false (rf m0 m') none (hView none m0 m'))
